@@ -476,6 +476,10 @@ def regions_for(geo, how):
         if t and t not in seen:
             seen.add(t)
             out.append(list(t))
+    if how == 'singles':
+        for i in range(n):
+            add([i])
+        return out
     if how == 'families':
         for i in range(n):
             add([i])
@@ -601,6 +605,61 @@ SITE = {'refine': 'refine', 'refine_all': 'refine', 'split': 'split_column', 'de
         'triangulate': 'triangulate_column', 'refine_layers': 'refine_layers'}
 
 
+def new_columns(before, geo):
+    """The columns of geo that were not in the snapshot (by vertex coordinates), in canonical order."""
+    old = set(c['key'] for c in before.cols)
+    return [c for c in canon_cols(geo) if tuple(sorted(G.poly([n.pos for n in c.node]))) not in old]
+
+
+def count_new(case):
+    """How many columns the (single-step) case creates - used to enumerate the second steps."""
+    geo = copy.deepcopy(base(case['geo']))
+    before = Snap(geo)
+    cols = canon_cols(geo)
+    with quiet():
+        if case['op'] == 'refine':
+            geo.refine([cols[i].name for i in case['region']], bisect=case['bisect'])
+        elif case['op'] == 'split':
+            geo.split_column(cols[case['column']].name, canon_nodes(geo)[case['node']].name)
+    return len(new_columns(before, geo))
+
+
+def compose_cases(tier):
+    """Two-step compositions: split_column then triangulate / refine of each piece and of both; refine of a
+    single column then refine of each new column and of all of them; triangulate_column / decompose_columns of a
+    straight-node polygon then refine of the pieces."""
+    cases = []
+    for g in (['r3x3', 'mixed6'] if tier == 'quick' else ['r3x3', 'mixed6', 'r4x3']):
+        for c in split_cases(g):
+            for piece in (0, 1, 'all'):
+                thens = [{'op': 'triangulate'}, {'op': 'refine', 'bisect': False}]
+                if piece != 'all':
+                    thens += [{'op': 'refine', 'bisect': True}, {'op': 'refine', 'bisect': 'x'}]
+                for t in thens:
+                    cases.append(dict(c, then=dict(t, piece=piece)))
+    for g in (['r3x3', 't8'] if tier == 'quick' else ['r3x3', 't8', 'r4x3', 'mixed6+decomposed']):
+        for c in refine_cases(g, 'singles', edge_options=(False,)):
+            if c['op'] != 'refine':
+                continue
+            try:
+                k = count_new(c)
+            except Exception:
+                k = 1           # the single-step case reports the failure
+            for piece in list(range(k)) + ['all']:
+                for b in (False, True):
+                    cases.append(dict(c, then={'op': 'refine', 'bisect': b, 'piece': piece}))
+    for bname, E, r in polygon_cases():
+        if r != 0 and tier == 'quick':
+            continue
+        if r not in (0, 1) and tier != 'quick':
+            continue
+        for op in ('triangulate', 'decompose'):
+            for piece in ('all', 0):
+                cases.append({'op': op, 'base': bname, 'mids': E, 'rot': r,
+                              'then': {'op': 'refine', 'bisect': False, 'piece': piece}})
+    return cases
+
+
 def run_case(case):
     """Executes one configuration.  Returns (violations [(sig, what)], nontrivial, outcome, stats)."""
     kind = case['op']
@@ -670,6 +729,44 @@ def run_case(case):
                 geo.refine_layers(names, factor=case['factor'])
             else:
                 raise core.HarnessError('unknown op %r' % kind)
+            if case.get('then'):
+                # second step of a composition, applied to the columns the first step created; the result is
+                # judged against the ORIGINAL columns below
+                t = case['then']
+                first_site = site
+                site = SITE[t['op']]
+                klass = 'after=%s,%s' % (first_site, klass)
+                if t['op'] == 'refine':
+                    klass += ',bisect=%s' % (t['bisect'],)
+                new = new_columns(before, geo)
+                if t['piece'] == 'all':
+                    targets = new
+                else:
+                    targets = new[t['piece']:t['piece'] + 1]
+                if not targets:
+                    return [], False, 'compose:no-such-piece', stats
+                if t['op'] == 'triangulate':
+                    for c in targets:
+                        geo.triangulate_column(c.name)
+                    geo.setup_block_name_index()
+                    geo.setup_block_connection_name_index()
+                    connections = False
+                elif t['op'] == 'refine':
+                    cols2, nbr2 = adjacency(geo)
+                    idx2 = dict((id(c), i) for i, c in enumerate(cols2))
+                    S2 = [idx2[id(c)] for c in targets]
+                    if not refinable(geo, cols2, nbr2, S2):
+                        return [], False, 'compose:not-refinable', stats
+                    if not connections:
+                        # (after triangulate_column the caller adds the connections, as decompose_columns does)
+                        connect_all(geo)
+                        geo.identify_neighbours()
+                    geo.refine([c.name for c in targets], bisect=t['bisect'])
+                    connections = True
+                elif t['op'] == 'decompose':
+                    geo.decompose_columns([c.name for c in targets])
+                else:
+                    raise core.HarnessError('unknown second step %r' % (t,))
     except core.CaseTimeout:
         return [('%s|%s|timeout|%s' % (ID, site, klass), 'did not return within 120 s')], True, 'timeout', stats
     except core.HarnessError:
@@ -683,7 +780,8 @@ def run_case(case):
         found += judge_layers(before, geo, case)
     viol = [('%s|%s|%s|%s' % (ID, site, clause, klass), 'after %s: %s' % (site, text)) for clause, text in found]
     nontrivial = stats.get('changed', 0) > 0 or (kind == 'refine_layers')
-    outcome = '%s:%s' % (kind, 'changed' if nontrivial else 'unchanged')
+    outcome = '%s%s:%s' % (kind, '>' + case['then']['op'] if case.get('then') else '',
+                           'changed' if nontrivial else 'unchanged')
     return viol, nontrivial, outcome, stats
 
 
@@ -812,6 +910,13 @@ def all_cases(tier):
     family(layer_cases, 'r4x3')
     family(layer_cases, 't8')
     family(layer_cases, 'r3x3n')
+    try:
+        with quiet():
+            cases.extend(compose_cases(tier))
+    except core.HarnessError:
+        raise
+    except Exception:
+        cases.append({'op': 'build', 'geo': 'r3x3+refined'})
     if tier == 'quick':
         family(refine_cases, 'r3x3+refined', 'sample')
         family(refine_cases, 'g7', 'sample', bisects=[False, True])
@@ -876,7 +981,8 @@ def run_unit(unit, tier, rec):
         rec.count('lattice_points', stats.get('lattice', 0))
         rec.count('lattice_on_side', stats.get('on_side', 0))
         rec.count('old_columns_replaced', stats.get('changed', 0))
-        rec.count('cases:' + case['op'] + (':' + case['geo'] if 'geo' in case else ''), 1)
+        rec.count('cases:' + case['op'] + ('>' + case['then']['op'] if case.get('then') else '') +
+                  (':' + case['geo'] if 'geo' in case else ''), 1)
         if nontrivial and not sampled and lo % 5 == 0:
             sampled = True
             rec.sample(dict(case, columns_after=stats.get('columns_after'), old_columns_replaced=stats.get('changed')))
